@@ -49,7 +49,7 @@ Proof.
   destruct (perr p1) as [o|] eqn:Ep; [lia|].
   destruct (negb (prd p1 =? 0)) eqn:Er; [lia|].
   destruct (at_end (pz p1)) eqn:Ea; [|lia].
-  destruct Hm as [_ [Hbad|(_ & Htop & _)]]; [discriminate|].
+  destruct Hm as (_ & [Hbad|(_ & Htop & _)] & _); [discriminate|].
   split; [exact Hinv1|]. split; [exact Ep|]. split; [lia|]. split; [|exact Htop].
   pose proof (json_inv_pos d p1 Hinv1) as Hpos.
   destruct Hinv1 as (a & tok & s & Hd & Hc & _). rewrite (cur3_at_end _ _ _ _ Hc) in Ea.
@@ -96,7 +96,7 @@ Proof.
   assert (Hperr : perr p = None).
   { destruct (snd u) as [[lo b]|].
     - destruct Hm as (_ & _ & _ & _ & _ & He & _). congruence.
-    - destruct Hm as [_ [Hbad|(He & _)]]; congruence. }
+    - destruct Hm as (_ & [Hbad|(He & _)] & _); congruence. }
   rewrite Hperr in Hk. rewrite Hprd.
   destruct (negb (prd p =? 0)); [lia|].
   destruct (at_end (pz p)) eqn:Ea; [|lia].
